@@ -487,6 +487,9 @@ func (c *Cache) copyFile(file io.ReadSeeker, out OutputID, size int64) error {
 			var out2 OutputID
 			h.Sum(out2[:0])
 			if out == out2 {
+				// The output is already stored: count this as a use of it,
+				// so that Trim does not remove what was just stored again.
+				c.used(name)
 				return nil
 			}
 		}
